@@ -284,6 +284,81 @@ func genC04Locals() {
 		})
 	}
 	facts["c04_reader_per_run"] = fresh
+	// dimension audit: PROCESS-GLOBAL state the snapshot parser / replayer could share between concurrent or consecutive
+	// replays: package-level variables of pkg/rdb and pkg/rdbrestore that some function ASSIGNS (default build, no tests;
+	// a local of the same name declared in the function is not counted). Expected: none but the test hook of the chunk threshold.
+	written := map[string]bool{}
+	for _, dir := range []string{"pkg/rdb", "pkg/rdbrestore"} {
+		des, err := os.ReadDir(filepath.Join(*repo, dir))
+		if err != nil {
+			die("%s: %v", dir, err)
+		}
+		var files []*ast.File
+		vars := map[string]bool{}
+		for _, e := range des {
+			if e.IsDir() || !strings.HasSuffix(e.Name(), ".go") || strings.HasSuffix(e.Name(), "_test.go") {
+				continue
+			}
+			_, ff := parseFile(dir + "/" + e.Name())
+			files = append(files, ff)
+			for _, d := range ff.Decls {
+				if gd, ok := d.(*ast.GenDecl); ok && gd.Tok == token.VAR {
+					for _, sp := range gd.Specs {
+						if vs, ok := sp.(*ast.ValueSpec); ok {
+							for _, id := range vs.Names {
+								vars[id.Name] = true
+							}
+						}
+					}
+				}
+			}
+		}
+		for _, ff := range files {
+			for _, d := range ff.Decls {
+				fn, ok := d.(*ast.FuncDecl)
+				if !ok || fn.Body == nil {
+					continue
+				}
+				local := map[string]bool{}
+				if fn.Type.Params != nil {
+					for _, fl := range fn.Type.Params.List {
+						for _, id := range fl.Names {
+							local[id.Name] = true
+						}
+					}
+				}
+				ast.Inspect(fn.Body, func(n ast.Node) bool {
+					switch x := n.(type) {
+					case *ast.AssignStmt:
+						for _, l := range x.Lhs {
+							if id, ok := l.(*ast.Ident); ok {
+								if x.Tok == token.DEFINE {
+									local[id.Name] = true
+								} else if vars[id.Name] && !local[id.Name] {
+									written[dir+"."+id.Name+" in "+fn.Name.Name] = true
+								}
+							}
+						}
+					case *ast.ValueSpec:
+						for _, id := range x.Names {
+							local[id.Name] = true
+						}
+					case *ast.IncDecStmt:
+						if id, ok := x.X.(*ast.Ident); ok && vars[id.Name] && !local[id.Name] {
+							written[dir+"."+id.Name+" in "+fn.Name.Name] = true
+						}
+					}
+					return true
+				})
+			}
+		}
+	}
+	wl := []string{}
+	for k := range written {
+		wl = append(wl, k)
+	}
+	sort.Strings(wl)
+	facts["c04_pkg_vars_written"] = wl
 	for _, k := range []string{"c04_rdbPipe_source", "c04_parseRdb_pipe"} {
 		if _, ok := facts[k]; !ok {
 			die("%s not found", k)
